@@ -155,7 +155,11 @@ class AnyArray(np.lib.mixins.NDArrayOperatorsMixin):
         if not (np.isreal(val) or np.iscomplex(val)):
             raise TypeError("need arithmetic scalar")
         xp = np if device_id == -1 else cupy
-        return AnyArray(np.broadcast_to(xp.array(val), shape))
+        arr = xp.array(val)
+        if isinstance(arr, np.ndarray):
+            # the 0-d array stays reachable as `.base` of the broadcast
+            arr.flags.writeable = False
+        return AnyArray(np.broadcast_to(arr, shape))
 
     # ---Views, copies, rights, etc.---
     def lock(self):
